@@ -22,7 +22,7 @@ from harness.par import pmap
 
 LIMIT = 100
 FILES = {1: "a.md", 2: "b.txt", 3: "big.md", 4: "eq.md", 5: "ign.md", 6: "node_modules/x.md", 7: "sub/c.md", 8: "sub/deep/d.md",
-         9: "drafts/e.md", 13: "sub/f.txt"}
+         9: "drafts/e.md", 13: "sub/f.txt", 14: "notes.md/raw.dat", 15: "notes.md/in.md"}
 IMPL = dict(GlobFilters=True, WalkSkipsLinks=True, ForceAppliesIgnore=False)     # FALSE = behaviour of an open finding
 
 
@@ -111,7 +111,7 @@ def run(tier: str) -> int:
     chk = Check("C17", tier, "model_checking")
     maxargs = 2 if tier == "quick" else 3
     chk.rule = (f"cases = every point of spec/Resolve.tla: 96 settings x every argument list of length <= {maxargs} over 13 arguments "
-                "(directories, files in different spellings, globs, a symlinked directory) on a 13-entry tree; quick executes every "
+                "(directories, files in different spellings, globs, a symlinked directory) on a 15-entry tree; quick executes every "
                 "second point (seeded offset), thorough all; non-trivial = point whose Must set is non-empty and differs from the unfiltered tree")
     chk.assumptions = ["the universe is one rich tree (sizes at and over the limit, excluded dirs, ignore file, four kinds of symlink)",
                        "symlinks matched by a glob pattern are left free by the property (May)"]
